@@ -89,6 +89,10 @@ type RouteW struct {
 	Prefix string `json:"prefix"`
 	Idx    int    `json:"idx,omitempty"` // loopback interface index (default 1)
 	Pref   *int   `json:"pref,omitempty"`
+	// Type: the kernel's route type (RTN_*; 0 = unicast). A route to a prefix is
+	// a route whatever its type: local (AnyIP), anycast, unreachable, blackhole
+	// entries of a loopback interface are listed and expanded like the others.
+	Type int `json:"type,omitempty"`
 }
 
 // An Action is one environment event at fake time At (ns since run start,
